@@ -11,15 +11,20 @@
                                                                 (lib/icinga/externalcommandprocessor.cpp:597-741)
     ClusterEvents::AcknowledgementSetAPIHandler / AcknowledgementClearedAPIHandler
                                                                 (lib/icinga/clusterevents.cpp:802-911)
+    the reminder guards of NotificationComponent::NotificationTimerHandler
+                                                                (lib/notification/notificationcomponent.cpp:225-261)
 
   on top of the C01 model of the soft/hard state machine.  Core Lean only.
 
     Comment::CommentsExpireTimerHandler                         (lib/icinga/comment.cpp:240-259)
 
   Times are integers (seconds of the virtual clock).  A downtime enters only as the bit "a downtime is in effect"
-  (its own life cycle is C05's).  Not in the model: reachability, flapping (the harness keeps them off), pausing, the
-  zone check of the cluster handlers (C13), the suppressed-notification timer (C02; the harness never lets it run),
-  the HTTP layer in front of the API action (an HTTP request is modelled as the API action it dispatches to).
+  (its own life cycle is C05's).  Pausing (HA: the object is active on the other zone member) enters as the bit
+  `paused` that the `pause` operation sets (`ConfigObject::SetAuthority`); the stash of withheld state notifications
+  (`suppressed_notifications`) is modelled as its two state bits Problem / Recovery.  Not in the model: reachability,
+  flapping (the harness keeps them off), the zone check of the cluster handlers (C13), the suppressed-notification timer
+  that later empties the stash (C02; the harness never lets it run), the HTTP layer in front of the API action (an HTTP
+  request is modelled as the API action it dispatches to).
 -/
 import IcingaModel.C01.Model
 
@@ -78,6 +83,11 @@ inductive Op
   | pump (now : Int) (fired : Bool)
   /-- a downtime in effect is added (`on`) or removed -/
   | downtime (on : Bool) (now : Int)
+  /-- `SetAuthority(!on)`: the object becomes paused (`on`) or active again -/
+  | pause (on : Bool) (now : Int)
+  /-- `NotificationComponent::NotificationTimerHandler()` at a moment at which the reminder of the object's (one,
+      unfiltered, unpaused) Notification object is due -/
+  | remind (now : Int)
   deriving Repr
 
 def Op.now : Op → Int
@@ -87,19 +97,24 @@ def Op.now : Op → Int
   | .advance n => n
   | .pump n _ => n
   | .downtime _ n => n
+  | .pause _ n => n
+  | .remind n => n
 
 structure MSt where
   base : St             -- C01: state_raw, state_type, check_attempt, last_hard_state_raw, last result's execution_start
   ack : Ack             -- acknowledgement (raw attribute)
   expiry : Int          -- acknowledgement_expiry, 0 = none
   comments : List Cmt   -- existing comments of entry type acknowledgement
-  suppPending : Bool    -- suppressed_notifications & (Problem|Recovery) ≠ 0
+  suppProblem : Bool    -- suppressed_notifications & NotificationProblem ≠ 0
+  suppRecovery : Bool   -- suppressed_notifications & NotificationRecovery ≠ 0
   inDowntime : Bool     -- Checkable::IsInDowntime(): some registered downtime is in effect
+  paused : Bool         -- ConfigObject::IsPaused()
   deriving Repr, DecidableEq
 
 /-- A never-checked, never-acknowledged checkable. -/
 def init : MSt :=
-  { base := pending, ack := .none, expiry := 0, comments := [], suppPending := false, inDowntime := false }
+  { base := pending, ack := .none, expiry := 0, comments := [], suppProblem := false, suppRecovery := false,
+    inDowntime := false, paused := false }
 
 /-- What one operation did besides changing the state (signals are ghost counters). -/
 structure Out where
@@ -108,6 +123,9 @@ structure Out where
   nClr : Nat := 0       -- OnAcknowledgementCleared
   nAckN : Nat := 0      -- OnNotificationsRequested(NotificationAcknowledgement)
   nProbN : Nat := 0     -- OnNotificationsRequested(NotificationProblem)
+  nRecN : Nat := 0      -- OnNotificationsRequested(NotificationRecovery)
+  raw : Ack := .none    -- the raw attribute `acknowledgement` after the operation, *before* anything looked at the object
+  nRem : Nat := 0       -- reminder Problem notifications attempted (Notification::BeginExecuteNotification(…, reminder))
   deriving Repr, DecidableEq
 
 /-- `Checkable::ClearAcknowledgement` (checkable.cpp:176-193): the cleared event fires iff it was set. -/
@@ -177,11 +195,11 @@ def ackStep (c : Cfg) (s : MSt) (via : Via) (sticky notify persistent : Bool) (e
     if g.1.ack != .none then (g.1, { acc := false, nClr := g.2 })
     else
       -- Comment::AddComment; Checkable::AcknowledgeProblem (checkable.cpp:160-174): one Acknowledgement
-      -- notification request iff `notify` (the object is not paused), one OnAcknowledgementSet
+      -- notification request iff `notify && !IsPaused()` (:165), one OnAcknowledgementSet in any case
       ({ g.1 with ack := ackTypeOf sticky, expiry := storedExpiry via expiry,
                   comments := if addsComment via then insertCmt ⟨now, persistent, commentExpire via expiry⟩ g.1.comments
                               else g.1.comments },
-       { acc := true, nSet := 1, nClr := g.2, nAckN := if notify then 1 else 0 })
+       { acc := true, nSet := 1, nClr := g.2, nAckN := if notify && !s.paused then 1 else 0 })
 
 /-- Remove-acknowledgement: `ClearAcknowledgement`, then — API action (apiactions.cpp:290-291) and external
     command (externalcommandprocessor.cpp:663-668, 737-741) — `RemoveAckComments()` with no time limit, which
@@ -232,15 +250,33 @@ def resultStep (c : Cfg) (s : MSt) (new : SState) (execStart execEnd now : Int) 
   let send := sendNotification c s.base new
   -- :227-228
   let recovery := isOK c.kind new && !isOK c.kind s.base.state
-  -- :503-517 (not flapping, not paused): request now, or stash while suppressed / while something is stashed
-  let stash := send && (acked || s.suppPending)
-  ({ a.1 with base := (stepCore c s.base r).1, comments := comments, suppPending := s.suppPending || stash },
-   { acc := true, nClr := a.2, nProbN := if send && !stash && !recovery then 1 else 0 })
+  -- :501-517 (not flapping): a paused object neither requests nor stashes; otherwise request now, or stash the
+  -- type (Recovery / Problem) while suppressed or while a state notification is still stashed
+  let due := send && !s.paused
+  let stash := due && (acked || s.suppProblem || s.suppRecovery)
+  ({ a.1 with base := (stepCore c s.base r).1, comments := comments,
+              suppProblem := s.suppProblem || (stash && !recovery), suppRecovery := s.suppRecovery || (stash && recovery) },
+   { acc := true, nClr := a.2, nProbN := if due && !stash && !recovery then 1 else 0,
+     nRecN := if due && !stash && recovery then 1 else 0 })
 
 /-- `Comment::CommentsExpireTimerHandler` (comment.cpp:240-259) with `Comment::IsExpired` (:119-124): an expired
     comment is removed unless it is a persistent acknowledgement comment. -/
 def survivesExpiry (now : Int) (cm : Cmt) : Bool :=
   !(cm.expire != 0 && decide (cm.expire < now)) || cm.persistent
+
+/-- The guards of a due reminder that do not consult the acknowledgement (notificationcomponent.cpp:233-247): hard state,
+    not OK/Up, no Problem notification stashed for the checkable ("don't send reminder notifications before initial
+    ones"), not in a downtime (`IsInDowntime()` stands before `IsAcknowledged()` in the `||` chain). -/
+def remindable (c : Cfg) (s : MSt) : Bool :=
+  s.base.stype == .hard && !isOK c.kind s.base.state && !s.suppProblem && !s.inDowntime
+
+/-- A due reminder: when the other guards let it through, `IsAcknowledged()` is asked (lazy expiry) and the reminder
+    attempted iff the object is not acknowledged (notificationcomponent.cpp:247-261). -/
+def remindStep (c : Cfg) (s : MSt) (now : Int) : MSt × Out :=
+  if remindable c s then
+    let g := getAck s now
+    (g.1, { nClr := g.2, nRem := if g.1.ack == .none then 1 else 0 })
+  else (s, {})
 
 /-- One operation as the entry point performs it. -/
 def opStep (c : Cfg) (s : MSt) : Op → MSt × Out
@@ -253,13 +289,18 @@ def opStep (c : Cfg) (s : MSt) : Op → MSt × Out
   | .advance _ => (s, {})
   | .pump now fired => ({ s with comments := if fired then s.comments.filter (survivesExpiry now) else s.comments }, {})
   | .downtime on _ => ({ s with inDowntime := on }, {})
+  | .pause on _ => ({ s with paused := on }, {})
+  | .remind now => remindStep c s now
 
-/-- One operation followed by a look at the object at the same virtual time: `GetAcknowledgement()`
-    (what `IsAcknowledged`, `GetHandled` and every reader of the acknowledgement state go through). -/
+/-- One operation followed by a look at the object at the same virtual time.  The harness first reads the raw
+    attribute (`Out.raw`: no reader involved), then `GetHandled()`, `GetSeverity()` and `GetAcknowledgement()` in an
+    order that the operation line chooses; each of the three goes through `GetAcknowledgement()` — `GetHandled`
+    (checkable.cpp:213-216) and `GetSeverity` (host.cpp:174-199, service.cpp:120-160) via `IsAcknowledged()`, and only
+    when they get that far — so whichever comes first performs the lazy expiry and all of them see its result. -/
 def step (c : Cfg) (s : MSt) (op : Op) : MSt × Out :=
   let p := opStep c s op
   let g := getAck p.1 op.now
-  (g.1, { p.2 with nClr := p.2.nClr + g.2 })
+  (g.1, { p.2 with nClr := p.2.nClr + g.2, raw := p.1.ack })
 
 /-- What the harness observes after each operation. -/
 structure Obs where
@@ -276,6 +317,12 @@ structure Obs where
   nAckN : Nat
   nProbN : Nat
   comments : List Cmt
+  raw : Ack           -- raw attribute before the look
+  sevAck : Bool       -- `GetSeverity()` puts the object into the "acknowledged" class (+512)
+  suppP : Bool        -- suppressed_notifications & NotificationProblem
+  suppR : Bool        -- suppressed_notifications & NotificationRecovery
+  nRecN : Nat
+  nRem : Nat
   deriving Repr, DecidableEq
 
 /-- `Checkable::GetProblem` (checkable.cpp:206-211). -/
@@ -286,10 +333,18 @@ def problemOf (c : Cfg) (s : MSt) : Bool :=
 def handledOf (c : Cfg) (s : MSt) : Bool :=
   problemOf c s && (s.inDowntime || s.ack != .none)
 
+/-- `Host::GetSeverity` (host.cpp:174-199) / `Service::GetSeverity` (service.cpp:120-160): a checked object that is
+    not OK/Up is put into the acknowledged class (+512) iff `IsAcknowledged()`, before downtime and reachability are
+    asked.  (`HasBeenChecked()` ∧ not OK/Up is `GetProblem()`.) -/
+def sevAckOf (c : Cfg) (s : MSt) : Bool :=
+  problemOf c s && s.ack != .none
+
 def obsOf (c : Cfg) (p : MSt × Out) : Obs :=
   { acc := p.2.acc, ack := p.1.ack, expiry := p.1.expiry, handled := handledOf c p.1, problem := problemOf c p.1,
     state := p.1.base.state, stype := p.1.base.stype, attempt := p.1.base.attempt,
-    nSet := p.2.nSet, nClr := p.2.nClr, nAckN := p.2.nAckN, nProbN := p.2.nProbN, comments := p.1.comments }
+    nSet := p.2.nSet, nClr := p.2.nClr, nAckN := p.2.nAckN, nProbN := p.2.nProbN, comments := p.1.comments,
+    raw := p.2.raw, sevAck := sevAckOf c p.1, suppP := p.1.suppProblem, suppR := p.1.suppRecovery, nRecN := p.2.nRecN,
+    nRem := p.2.nRem }
 
 /-- Run a history, collecting (operation, observation) pairs. -/
 def trace (c : Cfg) : MSt → List Op → List (Op × Obs)
